@@ -153,6 +153,8 @@ U('C03', 'C03_algo.cpp', name='C03_elements_light', defines=dict(RANGE=2, NB=2, 
 # proxy-row ranges (begin()/end() of an arbitrary 2-D view): six algorithm families in the quick tier, the two expensive ones (10 min, 6-9 GB) in the thorough tier
 ROWS_LIGHT = ['rows_reverse', 'rows_swap_ranges', 'rows_copy_move_backward', 'rows_shift_right', 'rows_fill', 'rows_partition']
 U('C03', 'C03_rows.cpp', name='C03_rows_light', defines=dict(NB=2, SB=3, MEMSZ2=12, VF_ROOT_CELLS=12), entries=ROWS_LIGHT, unwind=7, timeout=1200, heap=512, stubs=ALGO_STUBS)
+U('C03', 'C03_rows.cpp', name='C03_rows3_permuted', defines=dict(RDIM=3, PERMUTED=1, NB=2, SB=4, MEMSZ2=12, VF_ROOT_CELLS=12), entries=['rows_reverse', 'rows_swap_ranges'], unwind=11, timeout=3600, heap=512, stubs=ALGO_STUBS, slots=4, tier='thorough')   # rows of a 3-D view (2-D proxy rows), gap-free layouts with permuted dimension order
+U('C03', 'C03_rows.cpp', name='C03_rows3_arbitrary', defines=dict(RDIM=3, NB=2, SB=4, MEMSZ2=16, VF_ROOT_CELLS=16), entries=['rows_reverse', 'rows_swap_ranges'], unwind=11, timeout=3600, heap=512, stubs=ALGO_STUBS, slots=4, tier='thorough')   # the same over arbitrary strides
 U('C03', 'C03_rows.cpp', name='C03_rows_heavy', defines=dict(NB=2, SB=3, MEMSZ2=12, VF_ROOT_CELLS=12), entries=['rows_queries', 'rows_remove_unique'], unwind=7, timeout=3600, heap=512, stubs=ALGO_STUBS, tier='thorough', slots=4)
 U('C03', 'C03_algo.cpp', name='C03_1d_heavy', defines=dict(RANGE=1, NB=3, SB=2, MEMSZ2=8, VF_ROOT_CELLS=8), entries=['rotate', 'partial_sort'], unwind=6, timeout=3600, heap=512, stubs=ALGO_STUBS, tier='thorough', slots=4)
 
